@@ -189,7 +189,7 @@ fn mutate(rng: &mut Rng, text: &str) -> (String, &'static str) {
         .collect();
     let hostile_tokens = [
         "0", "-1", "18446744073709551616", "18446744073709551615", "4294967296", "x", "1.5", "+3", "1e3", "",
-        "９", "0x10", "2000",
+        "９", "0x10", "2000", "1099511627776", "1152921504606846976", "9223372036854775808", "9223372036854775807",
         // long tokens with multi-byte characters at every offset around typical truncation lengths
         "123456789012345é6789", "12345678901234€56789", "1234567é", "123é5678", "éééééééééééééééééééé", "1234567890123456789012345678901€",
         "abcdefghijklmnopqrstuvwxyzabcdefghijklmnopqrstuvwxyzabcdefghijklmn\u{1F600}", "12345678901234567890123456789012345678901234567890123456789012345",
@@ -405,6 +405,12 @@ pub fn run(run: &mut Run) {
         "the strict grammar (header, max-weight line, weight lines, sorted 1-based lists, zero padding to the maximum in padded form) is the harness author's reading of MacKay's alist format".into(),
     ];
     let miri = cfg!(miri);
+    // texts are below 1 MB and declared dimensions at most 2000: nothing a parser legitimately does with them needs
+    // gigabytes. The cap makes an absurd allocation (a count taken from the text used as a capacity) fail in the
+    // same way alone and under load; the supervising process turns the resulting abort into a verdict.
+    if matches!(run.leg.as_deref(), None | Some("unchecked")) && crate::abort::limit_address_space(12) {
+        run.assumptions.push("the workload process runs with a 12 GiB address-space limit (RLIMIT_AS)".into());
+    }
     let n_rt = if miri { 30 } else { run.tier.n(600_000, 20_000_000) };
     run.sub("roundtrip", n_rt, |l, idx, rng| {
         let m = gen_matrix(rng, idx);
